@@ -205,7 +205,7 @@ def build_fn(f):
   if k == 'hl':
     return fn.HLQuadraticCost(*[np.array(fl(v)) if isinstance(v, list) else float(v) for v in f[1:]])
   if k == 'demand':
-    return np.poly1d(fl(f[1])) and fn.DemandFunction(np.poly1d(fl(f[1])))
+    return fn.DemandFunction(np.poly1d(fl(f[1])))
   raise AssertionError(k)
 
 
